@@ -214,7 +214,7 @@ def run_harness(h, prop, tier, seed=1, replay_dir=None):
                 _dump_replay(path, h, tr, stim, sched, init_state, forces, obname, frame, rows)
                 rec["replay"] = path
             if kind == "bad" or tier == "thorough":
-                show = h.show or sorted(tr.free, key=lambda s: s.duid)[:8]
+                show = [s for s in (h.show or sorted(tr.free, key=lambda s: s.duid)[:8]) if s in tr.allsigs]
                 rec["trace"] = [{tr.names[s]: rows[t][s] for s in show} for t in range(min(frame + 1, 12))]
             return rec
 
